@@ -12,7 +12,7 @@ A failure means the modelled source changed shape; the correspondence run then d
 the property still holds (and supplies the replay).
 -/
 import OG.Generated.C18
-import OG.C18.OGWin
+import OG.C18.OGRec
 
 namespace OG.C18.Facts
 open OG.Gen.C18
